@@ -184,11 +184,22 @@ func HarnessC16Pool() {
 	}
 	_, ended := drainTolerant(b, 20)
 	vassert("C16.pool.drained", ended)
-	x := bytesPool.get(8)
-	y := bytesPool.get(8)
-	vassert("C16.pool.distinct", x != y)
-	bytesPool.put(x)
-	bytesPool.put(y)
+	// take more items than the pool can hold after this stream: no item may come out twice (the order in which a
+	// sync.Pool hands items back is not specified, so the whole content is drained rather than the top two compared)
+	var items []*bytesPoolItem
+	for k := 0; k < 8; k++ {
+		items = append(items, bytesPool.get(8))
+	}
+	distinct := true
+	for i := range items {
+		for j := i + 1; j < len(items); j++ {
+			distinct = distinct && items[i] != items[j]
+		}
+	}
+	vassert("C16.pool.distinct", distinct)
+	for _, it := range items {
+		bytesPool.put(it)
+	}
 	vreach("C16.pool.end")
 }
 
